@@ -42,6 +42,11 @@ IMAGE_CLASSES = ["uint8", "uint16", "float32", "uint8:rgb", "int16", "uint8:c2",
 INT_CLASSES = ["uint8", "uint32", "uint16", "uint64"]
 
 
+THICK = [([6, 6, 40], [1.0, 1.0, 4.0]), ([40, 6, 6], [4.0, 1.0, 1.0]), ([6, 40, 6], [1.0, 4.0, 1.0]),
+         ([5, 7, 44], [1.0, 1.0, 4.0]), ([7, 70, 5], [2.0, 8.0, 2.0]), ([72, 5, 6], [4.0, 1.0, 1.0]),
+         ([9, 5, 72], [2.0, 1.0, 4.0]), ([20, 20, 40], [1.0, 1.0, 4.0])]
+
+
 def pick_volume(rng, cmds, turn=0, allow_rgb=True):
     """Volume class for a program (selection only).  Sharded programs need
     cubic chunks -> isotropic voxels; compressed_segmentation needs an
@@ -73,6 +78,12 @@ def pick_volume(rng, cmds, turn=0, allow_rgb=True):
         else:
             voxel = [1.0, 1.0, 1.0]
             shape = [rng.randint(20, 64), rng.randint(4, 6), rng.randint(3, 5)]
+    if not sharded and turn % 3 == 1:
+        # thick slices: the extent along the thick axis exceeds that axis' chunk size at a
+        # computed scale whose chunk sizes differ between the axes (all permutations of the
+        # thick axis, the slice axis Z first)
+        shape, voxel = THICK[(turn // 3) % len(THICK)]
+        shape, voxel = list(shape), list(voxel)
     spec = {"shape": shape, "voxel": voxel, "kind": "labels" if seg else rng.choice(["noise", "ramp"]),
             "perfect": True}
     if cseg or seg:
